@@ -3,6 +3,7 @@ package main
 // Hash-consed SMT terms with local simplification.
 
 import (
+	"os"
 	"fmt"
 	"math/big"
 	"strings"
@@ -439,7 +440,7 @@ func Eq(a, b *Term) *Term {
 	if b.IsConst() && a.S.K == KBV && b.C.BitLen() > a.Sig {
 		return TFalse
 	}
-	if a.S.K == KBV && intBacked(a) && (b.IsConst() || intBacked(b)) {
+	if a.S.K == KBV && !dbgOff["intbacked"] && intBacked(a) && (b.IsConst() || intBacked(b)) {
 		return Eq(BV2Nat(a), BV2Nat(b))
 	}
 	// eq(ite(c, k1, k2), k) with consts
@@ -802,7 +803,7 @@ func BvCmp(op Op, a, b *Term) *Term {
 			return TTrue
 		}
 	}
-	if (op == OBvULt || op == OBvULe) && ((intBacked(a) && (b.IsConst() || intBacked(b))) || (intBacked(b) && a.IsConst())) {
+	if !dbgOff["intbacked"] && (op == OBvULt || op == OBvULe) && ((intBacked(a) && (b.IsConst() || intBacked(b))) || (intBacked(b) && a.IsConst())) {
 		if op == OBvULt {
 			return ILt(BV2Nat(a), BV2Nat(b))
 		}
@@ -1120,7 +1121,7 @@ nofold:
 			}
 		}
 		// (x mod a) mod b == x mod b when b divides a (both positive constants)
-		if b.IsConst() && b.C.Sign() > 0 && a.Op == OIMod && a.Args[1].IsConst() && a.Args[1].C.Sign() > 0 &&
+		if !dbgOff["modmod"] && b.IsConst() && b.C.Sign() > 0 && a.Op == OIMod && a.Args[1].IsConst() && a.Args[1].C.Sign() > 0 &&
 			new(big.Int).Mod(a.Args[1].C, b.C).Sign() == 0 {
 			return IntBin(OIMod, a.Args[0], b)
 		}
@@ -1188,6 +1189,9 @@ func addIntoZeroLowBits(a, b *Term) *Term {
 
 // log2Const: b is the constant 2^k.
 func log2Const(b *Term) (int, bool) {
+	if dbgOff["divmod"] {
+		return 0, false
+	}
 	if !b.IsConst() || b.C.Sign() <= 0 {
 		return 0, false
 	}
@@ -1197,8 +1201,16 @@ func log2Const(b *Term) (int, bool) {
 	return b.C.BitLen() - 1, true
 }
 
+var dbgOff = map[string]bool{}
+
+func init() {
+	for _, n := range strings.Split(os.Getenv("VF_NO_RULE"), ",") {
+		dbgOff[n] = true
+	}
+}
+
 func foldPositional(hi, lo *Term) *Term {
-	if hi.Op == OIMul {
+	if hi.Op == OIMul && !dbgOff["asbits"] {
 		x, c := hi.Args[0], hi.Args[1]
 		if x.IsConst() {
 			x, c = c, x
@@ -1235,7 +1247,32 @@ const bvArithMaxWidth = 320
 
 // asSignedBV returns a bit-vector whose signed value is the integer term: the bit-vector behind
 // a signed-backed term, the zero-extension of an unsigned-backed one, or a constant.
+// pureBV: the bit-vector term contains no truncation of an integer-sorted term; arithmetic is
+// moved to bit-vectors only for such terms (mixing int2bv of integer variables into wide
+// bit-vector arithmetic makes queries harder, not easier).
+var pureBVCache sync.Map
+
+func pureBV(t *Term) bool {
+	if v, ok := pureBVCache.Load(t.ID); ok {
+		return v.(bool)
+	}
+	r := t.Op != OInt2BV && t.Op != OIBitLen && t.Op != OITz
+	if r {
+		for _, a := range t.Args {
+			if a.S.K == KInt || !pureBV(a) {
+				r = false
+				break
+			}
+		}
+	}
+	pureBVCache.Store(t.ID, r)
+	return r
+}
+
 func asSignedBV(t *Term) (*Term, bool) {
+	if bvIntsOff.Load() {
+		return nil, false
+	}
 	if t.IsConst() {
 		w := t.C.BitLen() + 1
 		if w > bvArithMaxWidth {
@@ -1244,7 +1281,7 @@ func asSignedBV(t *Term) (*Term, bool) {
 		return BVConst(t.C, w), true
 	}
 	x, signed, ok := bvBacked(t)
-	if !ok {
+	if !ok || !pureBV(x) {
 		return nil, false
 	}
 	if signed {
@@ -1343,11 +1380,25 @@ func IAbs(a *Term) *Term {
 }
 
 // bvBacked returns the bit-vector an integer term is the (signed or unsigned) value of.
+// bvIntsOff disables the bit-vector-backed integer rewrites for a harness (//vf:bvints off):
+// they pay off where machine integers meet VM integers (C12-C14, C07) and can cost where
+// integer-sorted variables dominate (C05).
+var bvIntsOff atomic.Bool
+
 func bvBacked(t *Term) (bv *Term, signed bool, ok bool) {
+	if bvIntsOff.Load() {
+		return nil, false, false
+	}
 	if t.Op == OBV2Nat {
+		if !pureBV(t.Args[0]) {
+			return nil, false, false
+		}
 		return t.Args[0], false, true
 	}
 	if b, found := signedOf.Load(t.ID); found {
+		if !pureBV(b.(*Term)) {
+			return nil, false, false
+		}
 		return b.(*Term), true, true
 	}
 	return nil, false, false
@@ -1357,6 +1408,9 @@ func bvBacked(t *Term) (bv *Term, signed bool, ok bool) {
 // constant (or the value of another bit-vector of the same width and signedness) into a
 // bit-vector comparison. op is OILt, OILe or OEq; ok=false when the rewrite does not apply.
 func intCmpAsBV(op Op, a, b *Term) (*Term, bool) {
+	if dbgOff["cmpbv"] {
+		return nil, false
+	}
 	// (t +- k) cmp c  ==>  t cmp (c -+ k)
 	shift := func(t *Term) (*Term, *big.Int) {
 		if t.Op == OISub && t.Args[1].IsConst() {
@@ -1486,11 +1540,11 @@ func Int2BV(a *Term, w int) *Term {
 	if a.Op == OBV2Nat && a.Args[0].S.W < w {
 		return ZExt(a.Args[0], w)
 	}
-	if a.Op == OBV2Nat && a.Args[0].S.W > w {
+	if a.Op == OBV2Nat && a.Args[0].S.W > w && !dbgOff["int2bv"] {
 		return Extract(a.Args[0], w-1, 0)
 	}
 	// truncation is a ring homomorphism: distribute over +/- when that reaches bit-vectors
-	if (a.Op == OIAdd || a.Op == OISub) && (int2bvCheap(a.Args[0]) && int2bvCheap(a.Args[1])) {
+	if !dbgOff["int2bv"] && (a.Op == OIAdd || a.Op == OISub) && (int2bvCheap(a.Args[0]) && int2bvCheap(a.Args[1])) {
 		op := OBvAdd
 		if a.Op == OISub {
 			op = OBvSub
@@ -1528,7 +1582,7 @@ func BV2Nat(a *Term) *Term {
 	if a.Op == OZExt {
 		return BV2Nat(a.Args[0])
 	}
-	if a.Op == OExtract && a.Args[0].Op == OInt2BV {
+	if a.Op == OExtract && a.Args[0].Op == OInt2BV && !dbgOff["natextract"] {
 		// bits lo..hi of an integer's two's complement form: floor(n / 2^lo) mod 2^width
 		n := a.Args[0].Args[0]
 		r := IntBin(OIMod, IntBin(OIDiv, n, IntConst(pow2(a.B))), IntConst(pow2(a.S.W)))
@@ -1557,7 +1611,10 @@ func BV2IntSigned(a *Term) *Term {
 	n := BV2Nat(a)
 	half := new(big.Int).Lsh(bigOne, uint(w-1))
 	full := new(big.Int).Lsh(bigOne, uint(w))
-	r := Ite(ILt(n, IntConst(half)), n, IntBin(OISub, n, IntConst(full)))
+	// built without the arithmetic rewrites: n - 2^w of a bit-vector-backed n would itself be
+	// turned into the signed value of a wider vector, recursively
+	neg := intern(&Term{Op: OISub, S: SInt, Args: []*Term{n, IntConst(full)}})
+	r := Ite(intern(&Term{Op: OILt, S: SBool, Args: []*Term{n, IntConst(half)}}), n, neg)
 	signedOf.Store(r.ID, a)
 	return r
 }
